@@ -11,8 +11,6 @@ PROP = {'engine': 'q',
                   'ARRAYITEMS(_smallQueue) is observed from the compiled code and is a parameter of the model',
                   'the std::deque reference model and the canary item types inside harness/q.cpp'],
  'assumptions': ['item counts and indices below 2^32, no allocation failure (B_OUT_OF_MEMORY / B_RESOURCE_LIMIT paths are not modelled)',
-                 'EnsureSize(n, .., allowShrink=true) is called with n >= GetNumItems() (explicit hypothesis; the excluded calls overflow the new array or '
-                 'keep stale items: findings C16-D1/D2)',
                  'for an owning item type WITHOUT move semantics SwapContents/Plunder between an inline-buffer queue holding items and a heap queue is '
                  'excluded (finding C16-D3)',
                  'a queue is prepended to ITSELF (AddHeadMulti(*this) / InsertItemsAt(0, *this)) only with fewer than 2 items or when a reallocation is due '
@@ -29,15 +27,18 @@ TEXT = {'design_ref': 'DESIGN.md section 4, C16',
  'technique': 'Lean 4 refinement proof (ring buffer with head/tail/count over a slot array refines List) over a hand-written model of muscle::Queue + '
               'differential correspondence of model and real code on random API op sequences for a trivial and two owning item types, with a std::deque direct '
               'oracle',
- 'text': 'Proved in Lean for every ring state satisfying the representation invariant (hence for every history from a fresh Queue), every inline capacity and '
-         'every item type: the index kernels stay in range and equal (head+i) mod size; add/remove at head and tail, get/replace at index, Clear with/without '
-         'release and EnsureSize without set-size commute with the abstraction to the ideal List operation, keep the invariant and return the same result; '
+ 'text': 'Proved in Lean for every ring state satisfying the representation invariant — which for owning item types includes "every slot outside the window '
+         'and the idle inline buffer hold the default item" — hence for every history from a fresh Queue, for every inline capacity and item type: the index '
+         'kernels stay in range and equal (head+i) mod size; 15 op kinds (add/remove at head and tail, get/replace at index, Clear with/without release, '
+         'EnsureSize with and without set-size/extra/allowShrink on all paths, RemoveHeadMulti/RemoveTailMulti, AddTailMulti/AddHeadMulti from an array or '
+         'another queue, operator=, CopyFrom, Swap) keep the invariant, commute with the abstraction to the ideal List operation and return the same result; '
          'failure is reported exactly when the ideal operation is undefined and then nothing changes; the visible result of an operation depends only on what '
-         'was visible before; Normalize (contiguous and rotation branches) is the identity on the content; for owning types removal resets the vacated slot '
-         'and growing in place shows default items.  The remaining operations (multi-item insert/remove, RemoveItemAt, InsertItemAt, Swap, Reverse, Sort, '
-         'remove-by-value, copy/move/SwapContents, EnsureSize with set-size, the copy branch of Normalize) are modelled and covered by the correspondence run '
-         'and the std::deque oracle only (theorems named _partial).',
- 'note': 'Sort and the rotation inside Normalize are abstracted to their functional result (stable sort / rotation).  Explicit hypotheses exclude four '
-         'confirmed defects of the unchanged tree (C16-D1..D4, see known_findings.json and corpus/C16); their trigger inputs are kept out of the random stream '
-         'and run as corpus.  Trusted: Lean kernel, the statement file, the correspondence harness (sampling).  The model is hand-written; a defect the '
-         'generators never reach and the model does not share stays invisible.'}
+         'was visible before; set-size pads with default items only; Normalize (contiguous and rotation branches) is the identity on the content.  The '
+         'remaining operations (RemoveItemAt, InsertItemAt, InsertItemsAt, self-aliased multi forms, Reverse, Sort, remove-by-value, de-duplication, '
+         'SwapContents/Plunder, the copy branch of Normalize) are modelled and covered by the correspondence run and the std::deque oracle only (theorems '
+         'named _partial).',
+ 'note': 'Sort and the rotation inside Normalize are abstracted to their functional result (stable sort / rotation).  Findings C16-D1/D2 (EnsureSize with '
+         'allowShrink below the item count) are fixed in /repo (97f299d): their trigger class is back in the random stream and the corpus files are regression '
+         'cases.  C16-D3/D4 are open (known_findings.json): their trigger inputs are kept out of the random stream and run as corpus.  Trusted: Lean kernel, '
+         'the statement file, the correspondence harness (sampling).  The model is hand-written; a defect the generators never reach and the model does not '
+         'share stays invisible.'}
